@@ -3,15 +3,21 @@ import Comdex.Model.VaultAccrual
 /-! Driver plug-in for the vault stability-fee bookkeeping (C18, state level).
 
   va.begin   appWl fee stable pbh pbt amountOut ia vbh vbt tracker|none
-  va.calc    kind(msg|direct) now height debt bh bt powbits   outcome  <state>
-  va.update  now height newFee powbits                         outcome  <state>
+  va.calc    kind(msg|direct) now height debt bh bt powbits   outcome  <state>  legit
+  va.deposit now height amount powbits                         outcome  <state>  legit    (real MsgDeposit on the vault)
+  va.update  now height newFee powbits                         outcome  <state>  legit
   va.once    now height powbits                                outcome  <state>     one MsgVaultInterestCalc on a BRANCH of the
                                                                                     current state (discarded): the single accrual over
                                                                                     the interval the next two va.calc lines cover
 <state> := fee pbh pbt ia vbh vbt tracker|none  (seven fields: the real records after the call).  outcome ∈ ok err panic.
 The model state is replaced by the real projection after every line. Monitor `accrual_subadditive` (on REAL numbers): what two
 consecutive calculations booked (vault interest + tracker fraction) is at most what the single calculation booked, plus the
-explicit float slack `Accrual.subaddErr` and the interest on the whole units the first calculation moved into the debt. -/
+explicit float slack `Accrual.subaddErr` and the interest on the whole units the first calculation moved into the debt.
+legit := xbits:ybits:pbits for the interval the SPECIFICATION allows the call to accrue — from max(last fee update, last settlement
+of the vault) to now at the fee in force, computed by the harness's ghost which never reads the stamps (the driver keeps the same
+ghost, `Spec`; BAD if they disagree) — or `-`. Monitors on the REAL booked amounts, as for lockers (`Drv/LockerAccrual.lean`):
+`zero_time`, `zero_rate_window`, `accrued_interval`, `zero_rate`; suffix `_touched`: the vault was deposited into while the fee was
+zero (the code then loses the `BlockHeight = 0` flag: reproduced defect D36, notes/C18.md). -/
 namespace Comdex.Drv.VaultAccrualDrv
 open Comdex Comdex.Line Comdex.Accrual Comdex.VaultAccrual
 
@@ -30,9 +36,20 @@ structure Once where
   booked : Int        -- real `booked` after the single calculation
   steps : List Step := []
 
+/-- specification-side ghost: what SHOULD be accrued, from the history of calls alone -/
+structure Spec where
+  fee : Dec := 0
+  segStart : Int := 0      -- time of the last accepted fee update
+  settled : Int := 0       -- time the vault was last settled (calculated, deposited into, swept)
+  zeroSeen : Bool := false -- the fee was zero at some time since `settled`
+  touched : Bool := false  -- deposit while the fee was zero, since the last settlement at a running fee
+  muted : Bool := false    -- the clock was set back (error path of the harness): no specification until the next settlement
+  clockMax : Int := 0
+
 structure St where
   s : Option VaultAccrual.St := none
   once : Option Once := none
+  spec : Spec := {}
 
 def init : St := {}
 
@@ -74,6 +91,59 @@ def toRes : Res → Option (Option VaultAccrual.St)
   | .err => some none
   | .panic => none
 
+
+/-- `xbits:ybits:pbits` -/
+def parsePow (s : String) : Option (Nat × Nat × Nat) :=
+  match s.splitOn ":" with
+  | [x, y, p] => match parseNat? x, parseNat? y, parseNat? p with
+    | some x, some y, some p => some (x, y, p)
+    | _, _, _ => none
+  | _ => none
+
+/-- monitors of one accepted accruing call on the REAL booked amount; `debt` = the principal the call accrues on -/
+def specMon (seq : String) (sp : Spec) (cur real : VaultAccrual.St) (now debt : Int) (legit : String) : List String × List String :=
+  let credited : Int := booked real - booked cur
+  let sfx := if sp.touched then "_touched" else ""
+  let nonneg : List String := if credited < 0 then ["credited_nonneg"] else []
+  if sp.muted || decide (now < sp.clockMax) || !cur.appWl || cur.pair.stable then ([], [])
+  else if sp.fee = 0 then ([], if credited > 0 then ["zero_rate" ++ sfx] else nonneg)
+  else match parsePow legit with
+    | none => ([s!"BAD\t{seq}\tlegit pow missing"], [])
+    | some (xb, yb, pb) =>
+      let start := if sp.segStart ≤ sp.settled then sp.settled else sp.segStart
+      let secs := now - start
+      if !(ofBits xb = some (xF sp.fee) && ofBits yb = some (yF secs)) then
+        ([s!"BAD\t{seq}\tlegit pow arguments: harness ghost and driver ghost disagree (driver: fee {sp.fee}, {secs} s)"], [])
+      else match ofBits pb with
+        | none => ([], [])
+        | some p =>
+          let bound := interestOfPow p (aF debt)
+          ([], nonneg ++
+            (if secs = 0 && credited > 0 then ["zero_time" ++ sfx]
+             else if credited > bound then [(if sp.zeroSeen then "zero_rate_window" else "accrued_interval") ++ sfx]
+             else []))
+
+def specSettle (sp : Spec) (now : Int) (touch : Bool) : Spec :=
+  if decide (now < sp.clockMax) then { sp with muted := true }
+  else if sp.fee != 0 then { sp with settled := now, zeroSeen := false, touched := false, muted := false }
+  else if touch then { sp with settled := now, zeroSeen := true, touched := true }
+  else sp
+
+def specUpdate (sp : Spec) (now : Int) (newFee : Dec) : Spec :=
+  let swept := sp.fee != 0
+  { sp with fee := newFee, segStart := now,
+            settled := if swept then now else sp.settled,
+            zeroSeen := if swept then decide (newFee = 0) else (sp.zeroSeen || decide (newFee = 0) || decide (sp.fee = 0)),
+            touched := if swept then false else sp.touched }
+
+def bumpClock (sp : Spec) (now : Int) : Spec := { sp with clockMax := if sp.clockMax < now then now else sp.clockMax }
+
+/-- split the trailing `legit` field off the seven state fields -/
+def splitLegit (f : List String) : List String × String :=
+  match f.reverse with
+  | l :: r => if r.length = 7 then (r.reverse, l) else (f, "-")
+  | [] => (f, "-")
+
 -- DRIVER: prefix=va ns=Comdex.Drv.VaultAccrualDrv
 def handle (st : St) (seq : String) (f : List String) : St × List String :=
   match f with
@@ -81,11 +151,14 @@ def handle (st : St) (seq : String) (f : List String) : St × List String :=
     match parseBool? wl, parseInt? fee, parseBool? stb, parseInt? pbh, parseInt? pbt, parseInt? ao, parseInt? ia,
           parseInt? vbh, parseInt? vbt, parseTr tr with
     | some wl, some fee, some stb, some pbh, some pbt, some ao, some ia, some vbh, some vbt, some tr =>
-      ({ s := some { appWl := wl, pair := ⟨fee, stb, pbh, pbt⟩, vault := ⟨ao, ia, vbh, vbt⟩, tracker := tr } }, [])
+      let start := VaultAccrual.since pbt vbh vbt
+      ({ s := some { appWl := wl, pair := ⟨fee, stb, pbh, pbt⟩, vault := ⟨ao, ia, vbh, vbt⟩, tracker := tr },
+         spec := { fee := fee, segStart := pbt, settled := start, zeroSeen := decide (fee = 0), clockMax := start } }, [])
     | _, _, _, _, _, _, _, _, _, _ => (st, [s!"BAD\t{seq}\tva.begin args"])
-  | "va.calc" :: kind :: now :: h :: debt :: bh :: bt :: pb :: o :: proj =>
+  | "va.calc" :: kind :: now :: h :: debt :: bh :: bt :: pb :: o :: projL =>
     match st.s, parseInt? now, parseInt? h, parseInt? debt, parseInt? bh, parseInt? bt, parseNat? pb with
     | some cur, some now, some h, some debt, some bh, some bt, some pb =>
+      let (proj, legit) := splitLegit projL
       let pw := ofBits pb
       let pre := if kind = "msg" && (debt != cur.vault.amountOut + cur.vault.ia || bh != cur.vault.bh || bt != cur.vault.bt)
         then [s!"DIFF\t{seq}\tMsgVaultInterestCalc arguments: model={cur.vault.amountOut + cur.vault.ia} {cur.vault.bh} {cur.vault.bt}\timpl={debt} {bh} {bt}"]
@@ -110,14 +183,37 @@ def handle (st : St) (seq : String) (f : List String) : St × List String :=
               | _ => (none, [])
           else (none, [])
         | _, _ => (none, [])
-      ({ s := some real, once := once' }, pre ++ d ++ mon)
+      let (bad, smon) := if o = "ok" then specMon seq st.spec cur real now debt legit else ([], [])
+      let sp' := bumpClock (if o = "ok" then specSettle st.spec now false else st.spec) now
+      ({ s := some real, once := once', spec := sp' }, pre ++ d ++ mon ++ bad ++ smon.map fun m => s!"MON\t{seq}\t{m}")
     | _, _, _, _, _, _, _ => (st, [s!"BAD\t{seq}\tva.calc args"])
-  | "va.update" :: now :: h :: nf :: pb :: o :: proj =>
+  | "va.deposit" :: now :: h :: _amt :: pb :: o :: projL =>
+    match st.s, parseInt? now, parseInt? h, parseNat? pb with
+    | some cur, some now, some h, some pb =>
+      let (proj, legit) := splitLegit projL
+      let (real, d) := settle seq "deposit" cur (toRes (msgDeposit cur ⟨now, h⟩ (ofBits pb))) o proj
+      -- also accepted in its repaired form (D36)
+      let d := if d.isEmpty then d else
+        let (_, d2) := settle seq "deposit" cur (toRes (msgDepositFix cur ⟨now, h⟩ (ofBits pb))) o proj
+        if d2.isEmpty then [] else d
+      let (bad, smon) := if o = "ok" then specMon seq st.spec cur real now (cur.vault.amountOut + cur.vault.ia) legit else ([], [])
+      let sp' := bumpClock (if o = "ok" then specSettle st.spec now true else st.spec) now
+      ({ s := some real, once := none, spec := sp' }, d ++ bad ++ smon.map fun m => s!"MON\t{seq}\t{m}")
+    | _, _, _, _ => (st, [s!"BAD\t{seq}\tva.deposit args"])
+  | "va.update" :: now :: h :: nf :: pb :: o :: projL =>
     match st.s, parseInt? now, parseInt? h, parseInt? nf, parseNat? pb with
     | some cur, some now, some h, some nf, some pb =>
+      let (proj, legit) := splitLegit projL
       let m := match updateFee cur ⟨now, h⟩ nf (ofBits pb) with | none => none | some s => some (some s)
       let (real, d) := settle seq "update" cur m o proj
-      ({ s := some real, once := none }, d)
+      let (bad, smon) := if o = "ok" then specMon seq st.spec cur real now cur.vault.amountOut legit else ([], [])
+      -- a sweep whose calculation fails returns silently (nothing booked, no stamp): no specification until the next settlement
+      let sweepOk := match calcRewards cur.vault.amountOut cur.pair.fee (now - since cur.pair.bt cur.vault.bh cur.vault.bt) (ofBits pb) with
+        | .ok _ => true | _ => false
+      let spU := specUpdate st.spec now nf
+      let spU := if st.spec.fee != 0 && !sweepOk then { spU with muted := true } else spU
+      let sp' := bumpClock (if o = "ok" && !decide (now < st.spec.clockMax) then spU else st.spec) now
+      ({ s := some real, once := none, spec := sp' }, d ++ bad ++ smon.map fun m => s!"MON\t{seq}\t{m}")
     | _, _, _, _, _ => (st, [s!"BAD\t{seq}\tva.update args"])
   | "va.once" :: now :: h :: pb :: o :: proj =>
     match st.s, parseInt? now, parseInt? h, parseNat? pb with
